@@ -1,3 +1,419 @@
-use vh::runner::Ctx;
+//! C15 — Read/Write helpers are exact for any pattern of short transfers, EINTR, errors.
+//!
+//! `tiny_std::io::{Read, Write}` default methods (`read_to_end`, `read_to_string`,
+//! `read_exact`, `write_all`, `write_fmt`) are driven by scripted readers/writers (see
+//! `script.rs`). The oracle is evaluated over the trace of what the scripted peer really
+//! answered during the call:
+//!
+//! * `read_to_end`  — `Ok(n)` only after an EOF answer and with no non-EINTR error answered;
+//!   then `buf == old ++ delivered` and `n == delivered.len()`. `Err(e)` only if the reader
+//!   answered a non-EINTR error `e`; then `buf == old ++ (a prefix of delivered)` (the property
+//!   does not say how much of the partial data stays; it may never be anything the reader did
+//!   not deliver).
+//! * `read_to_string` — as above; if the delivered bytes are not UTF-8: `Err` and the String is
+//!   byte-identical to before. The String is valid UTF-8 at every exit.
+//! * `read_exact` — `Ok` iff n bytes were delivered with no EOF / error answer before; buffer
+//!   equals the delivered bytes; exactly n bytes consumed. EOF before n ⇒ `Err`.
+//! * `write_all` / `write_fmt` — `Ok` ⇒ sink == bytes exactly; `Err(e)` ⇒ the writer answered a
+//!   non-EINTR error `e` (or `Ok(0)`: any "wrote zero" error), and the sink is a prefix of the
+//!   bytes; a non-EINTR error answer is never swallowed; EINTR alone never fails the call.
+//! * `print!` family (E2) — with `write(2)` lengths clamped by the `sc` interposer (real short
+//!   writes into a pipe replacing fd 1/2) the pipe receives exactly the formatted bytes.
+mod gen;
+mod print;
+mod script;
 
-pub fn run(_ctx: &Ctx) {}
+use serde::de::DeserializeOwned;
+use serde::Serialize;
+use tiny_std::io::{Read, Write};
+use vh::runner::{no_panic, CaseReport, CaseResult, Ctx, Failure};
+use vh::util::escape;
+use vh::{ensure, fail};
+
+use gen::{ExactCase, FmtCase, Pieces, ReadCase, WriteCase};
+use script::{rfacts, wfacts, REv, RFacts, ScriptedReader, ScriptedWriter, WEv, EK};
+
+const POISON: u8 = 0xEE;
+
+fn show(b: &[u8]) -> String {
+    if b.len() <= 96 {
+        format!("\"{}\"", escape(b))
+    } else {
+        format!("\"{}\"..({} bytes)..\"{}\"", escape(&b[..40]), b.len(), escape(&b[b.len() - 24..]))
+    }
+}
+
+/// How `got` differs from `old ++ delivered` (stable, small vocabulary for signatures).
+fn diff_shape(got: &[u8], old: &[u8], delivered: &[u8]) -> &'static str {
+    if got.len() < old.len() || got[..old.len()] != *old {
+        return "existing content changed";
+    }
+    let tail = &got[old.len()..];
+    if tail.len() > delivered.len() {
+        if tail[..delivered.len()] == *delivered {
+            "length ahead of delivered data"
+        } else {
+            "longer and different"
+        }
+    } else if tail.len() < delivered.len() {
+        if *tail == delivered[..tail.len()] {
+            "delivered bytes missing at the end"
+        } else {
+            "shorter and different"
+        }
+    } else {
+        "same length, different bytes"
+    }
+}
+
+fn mk_vec(init: &[u8], cap_extra: usize) -> Vec<u8> {
+    let mut v: Vec<u8> = Vec::with_capacity(init.len() + cap_extra);
+    v.extend_from_slice(init);
+    // spare capacity holds a recognisable pattern: if the helper's length ever runs ahead of
+    // what the reader delivered, the exposed bytes are not the expected data
+    for b in v.spare_capacity_mut() {
+        b.write(POISON);
+    }
+    v
+}
+
+/// Which internal path of the copied std algorithm the trace went through (labels only).
+fn read_path_classes(rep: &mut CaseReport, trace: &[REv], spare0: usize, grew: bool) {
+    rep.class_if(spare0 == 0, "cap==len");
+    rep.class_if(grew, "growth");
+    if spare0 > 0 {
+        let mut cum = 0;
+        let mut probe_from = None;
+        for (i, ev) in trace.iter().enumerate() {
+            if let REv::Data { n, .. } = ev {
+                cum += n;
+                if cum == spare0 {
+                    probe_from = Some(i + 1);
+                    break;
+                }
+                if cum > spare0 {
+                    break;
+                }
+            }
+        }
+        if let Some(from) = probe_from {
+            let mut eintr = false;
+            for ev in &trace[from..] {
+                match ev {
+                    REv::Eintr => eintr = true,
+                    REv::Eof { .. } => {
+                        rep.class("exact-fit-probe-eof");
+                        rep.class_if(!grew, "exact-fit-capacity-kept");
+                        break;
+                    }
+                    REv::Data { .. } => {
+                        rep.class("probe-got-data");
+                        break;
+                    }
+                    REv::Fatal(_) => {
+                        rep.class("probe-got-error");
+                        break;
+                    }
+                    REv::EmptyOffer => {}
+                }
+            }
+            rep.class_if(eintr, "eintr-at-probe");
+        }
+    }
+}
+
+fn common_read_classes(rep: &mut CaseReport, f: &RFacts, rd: &ScriptedReader, scribble: bool) {
+    rep.nontrivial_if(f.short && f.eintrs >= 1);
+    rep.class_if(f.short, "short-transfer");
+    rep.class_if(f.eintrs >= 1, "eintr");
+    rep.class_if(matches!(rd.trace.first(), Some(REv::Eintr)), "eintr-first-call");
+    rep.class_if(!f.fatals.is_empty() && f.delivered_before_first_fatal > 0, "error-mid-stream");
+    rep.class_if(!f.fatals.is_empty() && f.delivered_before_first_fatal == 0, "error-first");
+    rep.class_if(f.eof_scripted && rd.ops_left() > 0, "eof-op-before-more-script");
+    rep.class_if(rd.delivered.is_empty(), "empty-stream");
+    rep.class_if(rd.delivered.len() >= 1024, "kib-stream");
+    rep.class_if(rd.op_split_by_offer, "data-op-larger-than-offer");
+    rep.class_if(scribble, "reader-scribbles-unfilled");
+    rep.class_if(f.polls_after_eof > 0, "polled-again-after-eof");
+}
+
+/// Map a panic of the helper: the termination guard of the scripted peer gets its own signature.
+fn guard<R>(op: &str, abused: bool, r: Result<R, Failure>) -> Result<R, Failure> {
+    match r {
+        Ok(v) => Ok(v),
+        Err(f) if abused => Err(Failure::new(format!("{op}|no-termination|peer polled beyond its call budget"), f.what)),
+        Err(f) => Err(f),
+    }
+}
+
+// --------------------------------------------------------------------------------- read_to_end
+
+pub fn check_read_to_end(c: &ReadCase) -> CaseResult {
+    let op = "read_to_end";
+    let mut rep = CaseReport::new();
+    let old = &c.init.0;
+    let mut v = mk_vec(old, c.cap_extra as usize);
+    let cap0 = v.capacity();
+    let spare0 = cap0 - v.len();
+    let mut rd = ScriptedReader::new(&c.script, c.scribble);
+    let res = no_panic(op, || Read::read_to_end(&mut rd, &mut v));
+    let res = guard(op, rd.abused, res)?;
+    let f = rfacts(&rd.trace);
+    let d = &rd.delivered;
+    match res {
+        Ok(n) => {
+            ensure!(f.fatals.is_empty(), format!("{op}|error-swallowed"), "reader answered {} but {op} returned Ok({n})", f.fatals[0].label());
+            ensure!(f.eof_seen, format!("{op}|returned-before-eof"), "{op} returned Ok({n}) although the reader never answered Ok(0) ({} ops unread)", rd.ops_left());
+            let exp: Vec<u8> = [old.as_slice(), d.as_slice()].concat();
+            ensure!(v == exp, format!("{op}|wrong-bytes|{}", diff_shape(&v, old, d)), "after Ok({n}): buf = {} (len {}), expected old ++ delivered = {} (len {}); capacity {}→{}", show(&v), v.len(), show(&exp), exp.len(), cap0, v.capacity());
+            ensure!(n == d.len(), format!("{op}|wrong-count"), "{op} returned Ok({n}) but the reader delivered {} bytes", d.len());
+        }
+        Err(e) => {
+            let k = EK::of(&e);
+            if f.fatals.is_empty() {
+                if k.is_eintr() {
+                    fail!(format!("{op}|eintr-surfaced"), "{op} returned EINTR to the caller instead of retrying (reader answered only data/EINTR/EOF)");
+                }
+                fail!(format!("{op}|invented-error"), "{op} returned Err({e}) but the reader never answered an error");
+            }
+            ensure!(f.fatals.contains(&k), format!("{op}|wrong-error"), "{op} returned Err({e}), the reader answered {}", f.fatals[0].label());
+            let ok = v.len() >= old.len() && v[..old.len()] == **old && d.starts_with(&v[old.len()..]);
+            ensure!(ok, format!("{op}|wrong-bytes-on-error|{}", diff_shape(&v, old, d)), "after Err({e}): buf = {} which is not old ++ a prefix of the delivered bytes {}", show(&v), show(d));
+            rep.class_if(v.len() == old.len() + d.len() && !d.is_empty(), "error-partial-data-kept");
+        }
+    }
+    read_path_classes(&mut rep, &rd.trace, spare0, v.capacity() > cap0);
+    common_read_classes(&mut rep, &f, &rd, c.scribble);
+    Ok(rep)
+}
+
+// ------------------------------------------------------------------------------ read_to_string
+
+pub fn check_read_to_string(c: &ReadCase) -> CaseResult {
+    let op = "read_to_string";
+    let mut rep = CaseReport::new();
+    let old_s: String = String::from_utf8_lossy(&c.init.0).into_owned();
+    let old = old_s.as_bytes();
+    let mut s = String::from_utf8(mk_vec(old, c.cap_extra as usize)).expect("initial content is UTF-8");
+    let cap0 = s.capacity();
+    let spare0 = cap0 - s.len();
+    let mut rd = ScriptedReader::new(&c.script, c.scribble);
+    let res = no_panic(op, || Read::read_to_string(&mut rd, &mut s));
+    let res = guard(op, rd.abused, res)?;
+    let f = rfacts(&rd.trace);
+    let d = &rd.delivered;
+    let got = s.as_bytes();
+    let d_valid = std::str::from_utf8(d).is_ok();
+    // memory-safety invariant of String, at every exit
+    ensure!(std::str::from_utf8(got).is_ok(), format!("{op}|string-holds-invalid-utf8"), "String contains invalid UTF-8 after the call: {}", show(got));
+    match res {
+        Ok(n) => {
+            ensure!(d_valid, format!("{op}|invalid-utf8-accepted"), "delivered bytes {} are not UTF-8 but {op} returned Ok({n})", show(d));
+            ensure!(f.fatals.is_empty(), format!("{op}|error-swallowed"), "reader answered {} but {op} returned Ok({n})", f.fatals[0].label());
+            ensure!(f.eof_seen, format!("{op}|returned-before-eof"), "{op} returned Ok({n}) although the reader never answered Ok(0)");
+            let exp: Vec<u8> = [old, d.as_slice()].concat();
+            ensure!(got == exp, format!("{op}|wrong-bytes|{}", diff_shape(got, old, d)), "after Ok({n}): string = {} (len {}), expected {} (len {})", show(got), got.len(), show(&exp), exp.len());
+            ensure!(n == d.len(), format!("{op}|wrong-count"), "{op} returned Ok({n}) but the reader delivered {} bytes", d.len());
+        }
+        Err(e) => {
+            let k = EK::of(&e);
+            if !d_valid {
+                ensure!(got == old, format!("{op}|string-changed-on-invalid-utf8|{}", diff_shape(got, old, &[])), "delivered bytes {} are not UTF-8; the String must be unchanged ({}), it is {}", show(d), show(old), show(got));
+                rep.class("invalid-utf8-rejected");
+                rep.class_if(!f.fatals.is_empty(), "invalid-utf8-and-error");
+            } else {
+                if f.fatals.is_empty() {
+                    if k.is_eintr() {
+                        fail!(format!("{op}|eintr-surfaced"), "{op} returned EINTR to the caller instead of retrying");
+                    }
+                    fail!(format!("{op}|invented-error"), "{op} returned Err({e}) for a valid UTF-8 stream {} from a reader that never answered an error", show(d));
+                }
+                ensure!(f.fatals.contains(&k), format!("{op}|wrong-error"), "{op} returned Err({e}), the reader answered {}", f.fatals[0].label());
+                let ok = got.len() >= old.len() && got[..old.len()] == *old && d.starts_with(&got[old.len()..]);
+                ensure!(ok, format!("{op}|wrong-bytes-on-error|{}", diff_shape(got, old, d)), "after Err({e}): string = {} which is not old ++ a prefix of the delivered bytes {}", show(got), show(d));
+                rep.class_if(got.len() == old.len() + d.len() && !d.is_empty(), "error-partial-data-kept");
+            }
+        }
+    }
+    // a delivery boundary inside a multi-byte scalar
+    if d_valid {
+        let ds = std::str::from_utf8(d).unwrap();
+        let mut cum = 0;
+        let mut split = false;
+        for ev in &rd.trace {
+            if let REv::Data { n, .. } = ev {
+                cum += n;
+                if cum < d.len() && !ds.is_char_boundary(cum) {
+                    split = true;
+                }
+            }
+        }
+        rep.class_if(split, "split-utf8-scalar");
+        rep.class_if(ds.chars().any(|c| c.len_utf8() == 4), "four-byte-scalar");
+    }
+    read_path_classes(&mut rep, &rd.trace, spare0, s.capacity() > cap0);
+    common_read_classes(&mut rep, &f, &rd, c.scribble);
+    Ok(rep)
+}
+
+// ---------------------------------------------------------------------------------- read_exact
+
+pub fn check_read_exact(c: &ExactCase) -> CaseResult {
+    let op = "read_exact";
+    let mut rep = CaseReport::new();
+    let n = c.n as usize;
+    let mut buf = vec![POISON; n];
+    let mut rd = ScriptedReader::new(&c.script, c.scribble);
+    let res = no_panic(op, || Read::read_exact(&mut rd, &mut buf));
+    let res = guard(op, rd.abused, res)?;
+    let f = rfacts(&rd.trace);
+    let d = &rd.delivered;
+    match res {
+        Ok(()) => {
+            ensure!(f.fatals.is_empty(), format!("{op}|error-swallowed"), "reader answered {} but {op} returned Ok", f.fatals[0].label());
+            ensure!(!f.eof_seen, format!("{op}|ok-after-eof"), "reader answered Ok(0) before {n} bytes were delivered but {op} returned Ok (it read on past the end of file)");
+            ensure!(d.len() == n, format!("{op}|wrong-amount-consumed"), "{op}({n}) returned Ok after consuming {} bytes from the reader", d.len());
+            ensure!(buf == *d, format!("{op}|wrong-bytes"), "{op}({n}): buffer = {}, delivered = {}", show(&buf), show(d));
+            rep.class("filled");
+            rep.class_if(rd.ops_left() > 0 || script::script_stream(&c.script).len() > n, "reader-has-more");
+        }
+        Err(e) => {
+            let k = EK::of(&e);
+            if !f.fatals.is_empty() {
+                ensure!(f.fatals.contains(&k), format!("{op}|wrong-error"), "{op} returned Err({e}), the reader answered {}", f.fatals[0].label());
+            } else if f.eof_seen {
+                ensure!(!k.is_eintr(), format!("{op}|eintr-surfaced"), "{op} returned EINTR");
+                rep.class("eof-before-full");
+                rep.class_if(d.len() + 1 == n, "one-byte-short");
+            } else if k.is_eintr() {
+                fail!(format!("{op}|eintr-surfaced"), "{op} returned EINTR to the caller instead of retrying");
+            } else {
+                fail!(format!("{op}|invented-error"), "{op}({n}) returned Err({e}) although the reader answered neither EOF nor an error ({} bytes delivered)", d.len());
+            }
+        }
+    }
+    rep.class_if(n == 0, "zero-length");
+    common_read_classes(&mut rep, &f, &rd, c.scribble);
+    Ok(rep)
+}
+
+// ------------------------------------------------------------------------- write_all/write_fmt
+
+fn sink_shape(sink: &[u8], data: &[u8]) -> &'static str {
+    if sink.len() > data.len() {
+        if sink[..data.len()] == *data { "extra bytes after the data (duplicate delivery)" } else { "longer and different (duplicate or reordered)" }
+    } else if data.starts_with(sink) {
+        "bytes missing at the end"
+    } else {
+        "different bytes (skipped or reordered)"
+    }
+}
+
+fn judge_write(op: &str, res: tiny_std::Result<()>, w: &ScriptedWriter, data: &[u8], rep: &mut CaseReport) -> Result<(), Failure> {
+    let f = wfacts(&w.trace);
+    match res {
+        Ok(()) => {
+            ensure!(f.fatals.is_empty(), format!("{op}|error-swallowed"), "writer answered {} but {op} returned Ok", f.fatals[0].label());
+            ensure!(w.sink == data, format!("{op}|wrong-bytes|{}", sink_shape(&w.sink, data)), "{op} returned Ok: sink = {} (len {}), expected {} (len {})", show(&w.sink), w.sink.len(), show(data), data.len());
+            rep.class("complete");
+        }
+        Err(e) => {
+            let k = EK::of(&e);
+            if f.fatals.is_empty() && !f.zero_seen {
+                if k.is_eintr() {
+                    fail!(format!("{op}|eintr-surfaced"), "{op} returned EINTR to the caller instead of retrying (writer answered only accept/EINTR)");
+                }
+                fail!(format!("{op}|invented-error"), "{op} returned Err({e}) but the writer never answered an error or Ok(0)");
+            }
+            if !f.zero_seen {
+                ensure!(f.fatals.contains(&k), format!("{op}|wrong-error"), "{op} returned Err({e}), the writer answered {}", f.fatals[0].label());
+            } else {
+                ensure!(!k.is_eintr(), format!("{op}|eintr-surfaced"), "{op} returned EINTR");
+            }
+            ensure!(data.starts_with(&w.sink), format!("{op}|wrong-bytes-on-error|{}", sink_shape(&w.sink, data)), "{op} returned Err({e}): sink = {} is not a prefix of {}", show(&w.sink), show(data));
+            rep.class_if(!f.fatals.is_empty() && f.accepted_before_first_stop > 0, "error-mid-stream");
+            rep.class_if(!f.fatals.is_empty() && f.accepted_before_first_stop == 0, "error-first");
+            rep.class_if(f.zero_seen, "wrote-zero");
+        }
+    }
+    rep.nontrivial_if(f.short && f.eintrs >= 1);
+    rep.class_if(f.short, "short-transfer");
+    rep.class_if(f.eintrs >= 1, "eintr");
+    rep.class_if(matches!(w.trace.first(), Some(WEv::Eintr)), "eintr-first-call");
+    rep.class_if(data.is_empty(), "empty-data");
+    rep.class_if(data.len() >= 1024, "kib-data");
+    Ok(())
+}
+
+pub fn check_write_all(c: &WriteCase) -> CaseResult {
+    let op = "write_all";
+    let mut rep = CaseReport::new();
+    let data = &c.data.0;
+    let mut w = ScriptedWriter::new(&c.script, data.len());
+    let res = no_panic(op, || Write::write_all(&mut w, data));
+    let res = guard(op, w.abused, res)?;
+    judge_write(op, res, &w, data, &mut rep)?;
+    Ok(rep)
+}
+
+pub fn check_write_fmt(c: &FmtCase) -> CaseResult {
+    let op = "write_fmt";
+    let mut rep = CaseReport::new();
+    let p = &c.pieces;
+    let expected: String = if c.template { print::template_string(p) } else { format!("{}", Pieces(p)) };
+    let data = expected.as_bytes();
+    let mut w = ScriptedWriter::new(&c.script, data.len());
+    let res = no_panic(op, || {
+        if c.template {
+            let (a, b, x) = print::template_args(p);
+            Write::write_fmt(&mut w, format_args!("[{}] {:>6}={:#06x}|{}\n", a, b, x, Pieces(p)))
+        } else {
+            Write::write_fmt(&mut w, format_args!("{}", Pieces(p)))
+        }
+    });
+    let res = guard(op, w.abused, res)?;
+    judge_write(op, res, &w, data, &mut rep)?;
+    rep.class_if(c.template, "template");
+    rep.class_if(w.calls >= 3, "several-write-str-calls");
+    Ok(rep)
+}
+
+// ----------------------------------------------------------------------------------------- run
+
+fn grid<C: Serialize + DeserializeOwned>(ctx: &Ctx, name: &str, what: &str, cases: impl FnOnce() -> Vec<C>, f: impl Fn(&C) -> CaseResult) {
+    if ctx.is_replay() {
+        if let Some(c) = ctx.replay_case::<C>(name) {
+            ctx.run_one(name, &c, || f(&c));
+        }
+        return;
+    }
+    let cases = cases();
+    let mut ok = true;
+    for (i, c) in cases.iter().enumerate() {
+        if i % ctx.nworkers as usize != ctx.worker as usize {
+            continue;
+        }
+        ok = ctx.run_one(name, c, || f(c));
+        if !ok {
+            break;
+        }
+    }
+    if ok {
+        ctx.note_exhaustive(format!("{name}: all {} cases of the grid {what}", cases.len()));
+    }
+}
+
+pub fn run(ctx: &Ctx) {
+    grid(ctx, "rte-grid", "stream size {0,1,2,31,32,33,63,64,65,96,97} x initial length {0,5,40} x chunking {whole,1,7,32} x {undisturbed, EINTR/EIO at start/middle/end, EOF in the middle} x capacity {len, +1, +31, +32, +33, fit-1, fit, fit+1}", gen::rte_grid, check_read_to_end);
+    grid(ctx, "rts-grid", "\"a\\u{e9}\\u{20ac}\\u{1F600}z\" cut at every byte offset x {EINTR at the cut or not} x {complete, truncated, 0xFF inserted, EIO at the cut} x initial {\"\", \"\\u{fc}x\"} x capacity {len, +1, fit, +32}", gen::rts_grid, check_read_to_string);
+    grid(ctx, "rex-grid", "n {0,1,2,31,32,33,64} x stream {n-1,n,n+1} x chunking {whole,1,7} x {undisturbed, EINTR/EIO at start/middle/end, EOF in the middle}", gen::rex_grid, check_read_exact);
+    grid(ctx, "wal-grid", "size {0,1,2,31,32,33,64,65} x accept {all,1,7,32} x {undisturbed, EINTR/ENOSPC/Ok(0) at start/middle}", gen::wal_grid, check_write_all);
+
+    ctx.run_prop("read-to-end", ctx.cases(4000, 150_000), gen::read_case(false), check_read_to_end);
+    ctx.run_prop("read-to-string", ctx.cases(4000, 150_000), gen::read_case(true), check_read_to_string);
+    ctx.run_prop("read-exact", ctx.cases(2500, 100_000), gen::exact_case(), check_read_exact);
+    ctx.run_prop("write-all", ctx.cases(2500, 100_000), gen::write_case(), check_write_all);
+    ctx.run_prop("write-fmt", ctx.cases(1500, 60_000), gen::fmt_case(), check_write_fmt);
+
+    print::run(ctx);
+}
